@@ -111,7 +111,15 @@ enum In {
 }
 
 fn inbound_decode(codec: &str, bytes: &[u8]) -> In {
-    let io = ScriptedIo::whole(bytes);
+    // every other input arrives in two segments, cut at a place derived from its bytes (a destination must not depend on where
+    // the network happened to split the request; C12 drives segmentation systematically, this only keeps C03 from assuming it away)
+    let h = bytes.iter().fold(bytes.len() as u64, |a, b| a.wrapping_mul(31).wrapping_add(*b as u64));
+    let io = if h % 2 == 0 && bytes.len() > 1 {
+        let cut = 1 + (h / 2) as usize % (bytes.len() - 1);
+        ScriptedIo::new(vec![bytes[..cut].to_vec(), bytes[cut..].to_vec()], true)
+    } else {
+        ScriptedIo::whole(bytes)
+    };
     let codec = codec.to_string();
     let bytes = bytes.to_vec();
     let fut = async move {
@@ -403,7 +411,7 @@ fn gen_host(r: &mut Rng) -> Vec<u8> {
     let len = *r.pick(&[0usize, 1, 2, 3, 4, 5, 11, 63, 64, 200, 253, 254, 255, 256, 300, 4096, 9000, 70000]);
     let len = if len > 300 && r.chance(2, 3) { *r.pick(&[7usize, 12, 30]) } else { len };
     let mut h: Vec<u8> = (0..len).map(|i| if i % 9 == 8 { b'.' } else { b'a' + (r.next() % 26) as u8 }).collect();
-    match r.below(17) {
+    match r.below(18) {
         0 => {}
         1 => {}
         2 if len > 0 => { let i = r.below(len); h[i] = b':'; }
@@ -429,6 +437,14 @@ fn gen_host(r: &mut Rng) -> Vec<u8> {
             }
             if !s.is_empty() { h = s.into_bytes(); }
         }
+        16 => {
+            // Unicode white space and invisible characters around an otherwise ordinary name or address literal: part of the
+            // destination the client named (a decoder that tidies them away forwards another destination)
+            let ws = *r.pick(&["\u{a0}", "\u{85}", "\u{2028}", "\u{3000}", "\u{1680}", "\u{feff}", "\u{200b}", "\u{2003}"]);
+            let core = if r.chance(1, 3) { (*r.pick(&["10.1.2.3", "intranet.test", "::1"])).to_string() } else { String::from_utf8_lossy(&h).to_string() };
+            let t = match r.below(3) { 0 => format!("{}{}", ws, core), 1 => format!("{}{}", core, ws), _ => format!("{}{}{}", ws, core, ws) };
+            h = t.into_bytes();
+        }
         _ => {}
     }
     h
@@ -438,7 +454,7 @@ pub async fn run(args: &Args) {
     let mut out = Out::new(
         "C03",
         "c03",
-        "destinations (host bytes of lengths 0..70000 and classes plain/colon/space/CR/LF/NUL/control/non-UTF-8/multibyte/IP-literal/bracketed x ports {0,1,79,80,255,256,65535}) carried in through every inbound codec (HTTP CONNECT, SOCKS5, SOCKS4a, SOCKS5-UDP header, RPFM attr) and out through every outbound encoder (CONNECT via h11c_connect, SOCKS5, SOCKS4, SOCKS5-UDP, RPFM) with full and partial writes; outgoing bytes parsed by strict reference parsers; 2-hop check through the real peer decoder. distinct = distinct (inbound, outbound, host class, length class, port)",
+        "destinations (host bytes of lengths 0..70000 and classes plain/colon/space/CR/LF/NUL/control/non-UTF-8/multibyte/Unicode white space at the edges/IP-literal/bracketed x ports {0,1,79,80,255,256,65535}) carried in through every inbound codec (HTTP CONNECT, SOCKS5, SOCKS4a, SOCKS5-UDP header, RPFM attr) and out through every outbound encoder (CONNECT via h11c_connect, SOCKS5, SOCKS4, SOCKS5-UDP, RPFM) with full and partial writes; outgoing bytes parsed by strict reference parsers; 2-hop check through the real peer decoder. distinct = distinct (inbound, outbound, host class, length class, port)",
     );
     let mut rng = Rng::new(args.seed);
     let n = args.n(8000, 300_000);
